@@ -79,7 +79,7 @@ def main(run):
     nmax = 12 if thorough else 6
     ncases = 400 if thorough else 40
     for c in range(ncases):
-        n = rng.randint(1, nmax)
+        n = rng.randint(1, nmax) if c % 8 else rng.randint(nmax + 1, 3 * nmax)  # every 8th case is large
         level = rng.choice([0, 1, 1, 2, 3])
         fc0 = gen.rand_rational_array(rng, (n, n, 3, 3))
         kind = rng.choice(["random", "random", "invariant"])
@@ -227,16 +227,18 @@ def main(run):
     from phonopy.structure.symmetry import Symmetry
 
     pj_cases = 30 if thorough else 4
-    pj_names = ["sc", "cscl", "bct", "ortho_C", "perovskite", "bcc"]
+    # cells whose fractional rotations are NOT signed permutation matrices come first (hexagonal,
+    # primitive fcc, rhombohedral): there the Cartesian matrix and its transpose/inverse differ
+    pj_first = ["hcp", "nacl_prim", "rhombo", "wurtzite", "zincblende_prim"]
+    pj_names = ["sc", "cscl", "bct", "ortho_C", "perovskite", "bcc", "mono_C", "rutile"] + pj_first
     done_pj = 0
     tries = 0
-    while done_pj < pj_cases and tries < 40:
+    while done_pj < pj_cases and tries < 60:
         tries += 1
-        if rng.random() < 0.5:
-            cell, _ = gen.make_cell(rng.choice(pj_names))
-            lat = np.round(cell.cell * 8) / 8  # dyadic lattice, exactly rational
-            cell.cell = lat
-            name = "proto"
+        if done_pj < 2 or rng.random() < 0.6:
+            cname = pj_first[(run.seed + done_pj + tries) % len(pj_first)] if done_pj < 2 else rng.choice(pj_names)
+            cell, _ = gen.make_cell(cname)
+            name = cname
         else:
             cell = gen.random_cell(rng, natom=rng.randint(1, 3))
             name = "random"
@@ -250,7 +252,7 @@ def main(run):
         rots = sym.symmetry_operations["rotations"]
         trans = sym.symmetry_operations["translations"]
         N, n = len(rots), len(sc)
-        if N > 64 or n > 12 or N < 2:
+        if N > 64 or n > 12 or N < 2 or (n < 2 and done_pj < 2):
             continue
         L = sc.cell.T  # column vectors, as passed by the API
         mapa = _get_atom_indices_by_symmetry(L, sc.scaled_positions, rots, trans, 1e-5)
@@ -306,6 +308,18 @@ def main(run):
         if not _close(again, fc):
             run.violation("set_tensor_symmetry_PJ", "not-idempotent", "group average applied twice differs by %.3g" % np.abs(again - fc).max(),
                           dict(lattice=sc.cell.tolist(), positions=sc.scaled_positions.tolist(), numbers=sc.numbers.tolist(), fc=fc0.tolist()))
+        # output obeys Phi(g i, g j) = R_g Phi(i, j) R_g^T for every operation (independent evaluation)
+        Linv = np.linalg.inv(L)
+        worst = 0.0
+        for g in range(N):
+            Rg = L @ rots[g] @ Linv  # Cartesian rotation
+            pg = np.array([np.where(mapa[g] == a)[0][0] for a in range(n)])  # image of atom a: mapa[g][image] = a
+            # mapa[g][k] is the atom sent ONTO k, so atom a goes to pg[a]
+            rot_fc = np.einsum("ka,ijab,lb->ijkl", Rg, fc, Rg)
+            worst = max(worst, np.abs(fc[np.ix_(pg, pg)] - rot_fc).max())
+        if worst > 1e-8 * max(1.0, np.abs(fc0).max()):
+            run.violation("set_tensor_symmetry_PJ", "output-not-invariant", "averaged force constants violate Phi(gi,gj)=R Phi(i,j) R^T by %.3g" % worst,
+                          dict(cell=name, lattice=sc.cell.tolist(), positions=sc.scaled_positions.tolist(), numbers=sc.numbers.tolist(), fc=fc0.tolist()))
         inv = gen.pair_fc(sc, cutoff=0.45 * gen.min_lattice_vector(sc.cell))
         inv2 = inv.copy()
         set_tensor_symmetry_PJ(inv2, L, sc.scaled_positions, sym)
